@@ -224,7 +224,7 @@ pub fn run(ctx: &Ctx) {
     ctx.assume("weights never overflow the counter type (checked_add panic is documented behaviour and not generated)");
     ctx.run_regressions(&[&C02]);
     let t = ctx.tier;
-    ctx.run_random(&C02, t.pick(600_000, 10_000_000), move || strategy(t));
+    ctx.run_random(&C02, t.pick(600_000, 5_000_000), move || strategy(t));
     ctx.require_class("history", "overestimate_observed", 0.2);
     ctx.require_class("history", "merge_then_add", 0.2);
     ctx.require_class("history", "w!=d", 0.6);
